@@ -9,6 +9,7 @@ LAYOUTS = [l for l in words.LAYOUTS if l != "space"]
 def run(tier, seed):
     tasks = PC.make_tasks(tier, seed, ORACLES, layouts=LAYOUTS, layout_depth=2, include_noreq=True)
     results = pool.run_tasks("checks.parser_common:task", tasks)
+    results += pool.run_tasks("checks.parser_common:task", PC.audit_tasks(tier, seed, ORACLES))
     results += pool.run_tasks("checks.parser_common:valid_task", PC.valid_tasks(tier, seed, ORACLES, layouts=["upper", "crlf"]))
     cov, viols, harness = PC.assemble(results)
     return dict(violations=viols, coverage=cov, harness_errors=harness, assumptions=PC.ASSUMPTIONS)
